@@ -406,12 +406,13 @@ func (a *av) GetValueID() uint32        { return a.id }
 func (a *av) GetValue() directive.Value { return a.val }
 
 type act struct {
-	kind   int // 0 add 1 remove 2 idle
-	id     uint32
-	ok     bool
-	idle   bool
-	hasErr bool
-	inSend bool // deliver this event from inside a strm.Send call if one happens in time
+	kind    int // 0 add 1 remove 2 idle
+	id      uint32
+	ok      bool
+	idle    bool
+	hasErr  bool
+	errKind int  // 0 none, 1 context.Canceled, 2 a real resolver error (hasErr = errKind != 0)
+	inSend  bool // deliver this event from inside a strm.Send call if one happens in time
 }
 
 func (a act) term() string {
@@ -421,7 +422,7 @@ func (a act) term() string {
 	case 1:
 		return hx.App("Remove", hx.U(uint64(a.id)))
 	default:
-		return hx.App("IdleCb", hx.Bool(a.idle), hx.Bool(a.hasErr))
+		return hx.App("IdleCb", hx.Bool(a.idle), hx.Bool(a.hasErr), hx.Bool(a.errKind == 2))
 	}
 }
 
@@ -432,7 +433,7 @@ func (a act) String() string {
 	case 1:
 		return fmt.Sprintf("remove(%d)%s", a.id, map[bool]string{true: "@send"}[a.inSend])
 	default:
-		return fmt.Sprintf("idle(%v,err=%v)%s", a.idle, a.hasErr, map[bool]string{true: "@send"}[a.inSend])
+		return fmt.Sprintf("idle(%v,err=%s)%s", a.idle, []string{"none", "canceled", "real"}[a.errKind], map[bool]string{true: "@send"}[a.inSend])
 	}
 }
 
@@ -451,7 +452,7 @@ func respTerm(m *bifrost_rpc_access.LookupRpcServiceResponse) string {
 }
 
 // driveLookup runs the real LookupRpcService against the callback history.
-func driveLookup(hist []act, wantQuiescent int) (quiescent, sent []*bifrost_rpc_access.LookupRpcServiceResponse, result int, panicked bool) {
+func driveLookup(hist []act, wantQuiescent int, mayEnd, mustEnd bool) (quiescent, sent []*bifrost_rpc_access.LookupRpcServiceResponse, result int, panicked, endedBeforeDispose bool) {
 	fb := &fakeBus{}
 	srv := bifrost_rpc_access.NewAccessRpcServiceServer(fb, false, nil)
 	strm := &fakeLookupStream{ctx: context.Background()}
@@ -500,7 +501,9 @@ func driveLookup(hist []act, wantQuiescent int) (quiescent, sent []*bifrost_rpc_
 			fb.handler.HandleValueRemoved(fb.inst, &av{a.id, nil})
 		case 2:
 			var errs []error
-			if a.hasErr {
+			if a.errKind == 1 {
+				errs = []error{nil, context.Canceled}
+			} else if a.hasErr {
 				errs = []error{nil, errResolver}
 			}
 			idleCb(a.idle, errs)
@@ -552,9 +555,23 @@ func driveLookup(hist []act, wantQuiescent int) (quiescent, sent []*bifrost_rpc_
 	}
 	// quiescence before dispose: wait until the stream has what the history requires
 	// (returns at once on a correct implementation; a lost wake-up runs into the timeout)
+	var err error
 	if wantQuiescent >= 0 {
 		deadline := time.Now().Add(quiesceTimeout)
-		for strm.count() < wantQuiescent && time.Now().Before(deadline) {
+		for time.Now().Before(deadline) {
+			if mayEnd {
+				select {
+				case err = <-errCh:
+					endedBeforeDispose = true
+				default:
+				}
+				if endedBeforeDispose {
+					break
+				}
+			}
+			if !mustEnd && strm.count() >= wantQuiescent {
+				break
+			}
 			time.Sleep(200 * time.Microsecond)
 		}
 		// settle: nothing more may arrive
@@ -566,11 +583,12 @@ func driveLookup(hist []act, wantQuiescent int) (quiescent, sent []*bifrost_rpc_
 	quiescent = append(quiescent, strm.sent...)
 	strm.mtx.Unlock()
 	fb.handler.HandleInstanceDisposed(fb.inst)
-	var err error
-	select {
-	case err = <-errCh:
-	case <-time.After(5 * time.Second):
-		panic("LookupRpcService did not return after dispose")
+	if !endedBeforeDispose {
+		select {
+		case err = <-errCh:
+		case <-time.After(5 * time.Second):
+			panic("LookupRpcService did not return after dispose")
+		}
 	}
 	switch {
 	case err == errResolver:
@@ -592,7 +610,7 @@ var quiesceTimeout = 3 * time.Second
 func c36(c *hx.Ctx) {
 	c.Type = "c36_case"
 	c.Agree = "c36_agree"
-	c.Rule = "callback histories delivered by the driver AND from inside strm.Send (a base history with the in-Send burst starting at every position x 3 burst lengths, then random bursts), quiescence observed before dispose; callback histories (length 0-14) over value ids {1,2,3}: adds/removes incl. removes of absent ids and non-invoker values, idle toggles and repeats; 10% with a repeated add of a present id (outside the bus contract), 10% with a resolver error; real LookupRpcService on a fake bus/stream; component ids: requests over a small alphabet and random bytes, plus truncated/mutated/extended encodings; non-trivial = a history that reports at least one Exists, or an accepted decoding"
+	c.Rule = "callback histories delivered by the driver AND from inside strm.Send (a base history with the in-Send burst starting at every position x 3 burst lengths, then random bursts), quiescence observed before dispose; callback histories (length 0-14) over value ids {1,2,3}: adds/removes incl. removes of absent ids and non-invoker values, idle toggles and repeats; 10% with a repeated add of a present id (outside the bus contract), ~15% with resolvers exiting with context.Canceled or a real error (also exactly when the directive goes idle); real LookupRpcService on a fake bus/stream; component ids: requests over a small alphabet and random bytes, plus truncated/mutated/extended encodings; non-trivial = a history that reports at least one Exists, or an accepted decoding"
 	nHist := c.N / 2
 	// crafted: one base history, the in-Send burst starting at every position, three burst lengths
 	var crafted [][]act
@@ -606,11 +624,27 @@ func c36(c *hx.Ctx) {
 			crafted = append(crafted, h)
 		}
 	}
+	for _, ek := range []int{1, 2} {
+		for _, send := range []bool{false, true} {
+			crafted = append(crafted,
+				// the resolver exits with an error at the moment the directive goes idle
+				[]act{{kind: 2, idle: true, hasErr: true, errKind: ek}},
+				[]act{{kind: 0, id: 1, ok: true}, {kind: 2, idle: true, hasErr: true, errKind: ek, inSend: send}},
+				[]act{{kind: 0, id: 1, ok: true}, {kind: 2, idle: true, hasErr: true, errKind: ek, inSend: send}, {kind: 1, id: 1, inSend: send}},
+				[]act{{kind: 2, idle: true}, {kind: 2, idle: false}, {kind: 0, id: 2, ok: true}, {kind: 2, idle: true, hasErr: true, errKind: ek, inSend: send}},
+				// error first, idle later; error while idle already
+				[]act{{kind: 2, idle: false, hasErr: true, errKind: ek}, {kind: 0, id: 1, ok: true}, {kind: 2, idle: true, inSend: send}},
+				[]act{{kind: 2, idle: true}, {kind: 2, idle: true, hasErr: true, errKind: ek, inSend: send}, {kind: 2, idle: false}, {kind: 2, idle: true}},
+				// a cancellation first hides a later real error (resErr keeps the first)
+				[]act{{kind: 2, idle: false, hasErr: true, errKind: 1}, {kind: 2, idle: true, hasErr: true, errKind: ek, inSend: send}, {kind: 0, id: 3, ok: true}},
+			)
+		}
+	}
 	lostReports := 0
 	for i := 0; i < nHist; i++ {
 		n := c.Rng.Intn(15)
 		dup := c.Rng.Intn(10) == 0
-		withErr := c.Rng.Intn(10) == 0
+		withErr := c.Rng.Intn(6) == 0
 		present := map[uint32]bool{}
 		var hist []act
 		illFormed := false
@@ -645,7 +679,11 @@ func c36(c *hx.Ctx) {
 				delete(present, id)
 				hist = append(hist, act{kind: 1, id: id})
 			default:
-				hist = append(hist, act{kind: 2, idle: c.Rng.Intn(2) == 0, hasErr: withErr && c.Rng.Intn(3) == 0})
+				ek := 0
+				if withErr && c.Rng.Intn(3) == 0 {
+					ek = 1 + c.Rng.Intn(2)
+				}
+				hist = append(hist, act{kind: 2, idle: c.Rng.Intn(2) == 0, hasErr: ek != 0, errKind: ek})
 			}
 		}
 		if i < len(crafted) {
@@ -657,13 +695,20 @@ func c36(c *hx.Ctx) {
 			}
 		}
 		hasErr := false
+		firstErr := 0 // resErr keeps the FIRST resolver error
 		for _, a := range hist {
 			hasErr = hasErr || a.hasErr
+			if firstErr == 0 {
+				firstErr = a.errKind
+			}
 		}
+		// a cancellation (or no error) never ends the call: fully deterministic.
+		// a real first error ends the call once the directive is idle with it.
+		mayEnd := firstErr == 2
 		// what the code must have queued after the whole history (len(vals)==1 after an insert)
-		wantQ := -1
-		if !hasErr {
-			wantQ = 0
+		wantQ := 0
+		finalIdle, realSeen, idleWithErr := false, false, false
+		{
 			cnt := map[uint32]bool{}
 			idle := false
 			for _, a := range hist {
@@ -683,14 +728,23 @@ func c36(c *hx.Ctx) {
 						}
 					}
 				case 2:
+					if mayEnd && a.errKind != 0 {
+						realSeen = true
+					}
 					if a.idle != idle {
 						idle = a.idle
 						wantQ++
 					}
+					if idle && realSeen {
+						idleWithErr = true
+					}
 				}
 			}
+			finalIdle = idle
 		}
-		quiescent, sent, result, pn := driveLookup(hist, wantQ)
+		mustEnd := mayEnd && finalIdle && realSeen
+		_ = idleWithErr
+		quiescent, sent, result, pn, ended := driveLookup(hist, wantQ, mayEnd, mustEnd)
 		if lostReports >= 3 {
 			quiesceTimeout = 100 * time.Millisecond // enough replays recorded: do not wait long again
 		}
@@ -717,13 +771,30 @@ func c36(c *hx.Ctx) {
 		switch {
 		case illFormed:
 			c.Class("hist-dup-add")
+		case mayEnd:
+			c.Class("hist-resolver-error-real")
 		case hasErr:
-			c.Class("hist-resolver-error")
+			c.Class("hist-resolver-error-canceled")
 		default:
 			c.Class("hist")
 		}
-		// ---- direct oracle (bus-contract histories without resolver errors) ----
-		if !illFormed && !hasErr {
+		desc["ended_with_resolver_error_before_dispose"] = ended
+		// ---- resolver exits with a real error: the stream must end with that error once the directive
+		// is idle, or (while not idle) the remote side must know the actual state ----
+		if !illFormed && mayEnd {
+			switch {
+			case mustEnd && !(ended && result == 1):
+				lostReports++
+				c.Failf("lookup-error-not-returned", desc, "the directive is idle with a resolver error at the end of the history, but the call did not end with that error (stream at quiescence %v): the remote side neither learns the error nor the idle state", sq)
+			case ended && result != 1:
+				c.Failf("lookup-result", desc, "call ended before dispose with class %d", result)
+			case !ended && !mustEnd && len(sq) != wantQ:
+				lostReports++
+				c.Failf("lookup-lost-report", desc, "after the history the stream had only %v (%d reports expected)", sq, wantQ)
+			}
+		}
+		// ---- direct oracle (bus-contract histories; a cancellation is not an error for the stream) ----
+		if !illFormed && !mayEnd {
 			// reference: provider count and idle state from the history alone
 			cnt := map[uint32]bool{}
 			var want []string
